@@ -12,6 +12,8 @@ geometries, masses and momenta.
 A third of the force-bias simulations get displacement masses of their own through
 update_masses() (uniform, per atom, per coordinate); in another sixth the atoms' masses
 change after construction.
+Fixed atoms are also given by negative indices and by mask, constraints are also put on after a few free steps, and
+the FixRot contract includes nearly linear geometries (tolerances scaled by the inertia tensor's condition number).
 """
 from __future__ import annotations
 
